@@ -31,6 +31,7 @@ from pyvc.verify import p_opt, p_str, p_unk
 
 ARCH = "sharepoint2text/parsing/extractors/archive_extractor.py"
 SEVEN = "sharepoint2text/parsing/extractors/util/sevenzip.py"
+ROUTER_REL = "sharepoint2text/parsing/router.py"
 S = z3.StringSort()
 ABS = z3.Function("os_path_abspath", S, S)
 JOIN = z3.Function("os_path_join", S, S, S)
@@ -286,6 +287,37 @@ def real_params(rel, qual, default):
     return list(default)
 
 
+def extra_params(rel, qual, n_roles):
+    """makers for the parameters a harmless edit ADDED behind the `n_roles` the contract speaks about (they must have defaults, else the call sites of
+    the unchanged callers would not work): a str default -> any string, anything else -> unknown"""
+    import ast
+    try:
+        f = loader.module(rel).functions.get(qual)
+        pos = f.args.posonlyargs + f.args.args
+        extra, defaults = pos[n_roles:], f.args.defaults
+        if len(pos) <= n_roles or len(defaults) < len(extra) or f.args.vararg or f.args.kwarg:
+            return None
+        out = []
+        from pyvc.verify import Maker
+
+        def mk(d):
+            # verified for ANY value of the added parameter; a call site that omits it gets the declared default
+            if isinstance(d, ast.Constant) and isinstance(d.value, str):
+                return Maker(p_str().fn, default=lambda ex, st, v=d.value: VStr(z3.StringVal(v)), desc="str (added parameter)")
+            if isinstance(d, ast.Constant):
+                return Maker(p_unk().fn, default=lambda ex, st, v=d.value: ops.lift(v), desc="any (added parameter)")
+            return Maker(p_unk().fn, default=lambda ex, st: VUnk("default"), desc="any (added parameter)")
+        for a, d in zip(extra, defaults[len(defaults) - len(extra):]):
+            out.append((a.arg, mk(d)))
+        for a, d in zip(f.args.kwonlyargs, f.args.kw_defaults):
+            if d is None:
+                return None
+            out.append((a.arg, mk(d)))
+        return out
+    except Exception:  # noqa
+        return None
+
+
 def contracts(reg):
     install(reg)
     out = []
@@ -295,7 +327,9 @@ def contracts(reg):
     (sup_name,) = real_params(ARCH, "_is_supported_file_cached", ("filename",))
 
     def no_fs(c):
-        calls = c.st.ghost.get("fs_calls", ())
+        if getattr(c, "at_call_site", False):                  # a clause about the callee's own run: at a call site it is what the caller may rely on
+            return z3.BoolVal(True)                            # (the caller's ghost list holds the CALLER's earlier calls and must not be judged here)
+        calls = c.st.ghost.get("fs_calls", ())[len(c.entry.ghost.get("fs_calls", ())):]
         c.note = "; ".join(calls)
         return z3.BoolVal(not calls)
 
@@ -342,6 +376,8 @@ def contracts(reg):
     def pe_stream(c):
         """every call of the callable that _get_file_extractor_cached returned has ONE positional argument: io.BytesIO(<the file_data parameter>)
         (a member name or any other string in that position would make the extractor open a host file)"""
+        if getattr(c, "at_call_site", False):
+            return z3.BoolVal(True)
         bad = []
         for (what, args, loc) in c.st.ghost.get("opaque_calls", ()):
             if not what.startswith("unknown:extractor"):
@@ -354,10 +390,35 @@ def contracts(reg):
         return z3.BoolVal(not bad)
 
     (gx_name,) = real_params(ARCH, "_get_file_extractor_cached", ("filename",))
+    (rx_path,) = real_params(ROUTER_REL, "get_extractor", ("path",))
+
+    def rx_result(ex, st, ctx):
+        v = VUnk(fresh_name("extractor"))
+        st.ghost["router_extractor"] = st.ghost.get("router_extractor", ()) + ((ctx.args[rx_path], v),)
+        return v
+
     out.append(FnContract(
-        target=f"{ARCH}::_get_file_extractor_cached", assumed=True, params=[(gx_name, p_str())], may_raise_any=True,
-        result_maker=lambda ex, st, ctx: VUnk(fresh_name("extractor")),
-        note="lru_cache wrapper of router.get_extractor (VERIFIED against the routing specification: conformance obligation); here only: some callable or an exception"))
+        target=f"{ROUTER_REL}::get_extractor", assumed=True, params=[(rx_path, p_str())], result_maker=rx_result,
+        raises=[Raises("ExtractionFileFormatNotSupportedError")],
+        note="call-site view: some callable chosen from the name, or ExtractionFileFormatNotSupportedError (no file-system access). The function itself is "
+             "VERIFIED against the routing specification (C09/router.py/conformance#names-are-routed-as-specified), which implies this view"))
+
+    def gx_same(c):
+        if getattr(c, "at_call_site", False):
+            return z3.BoolVal(True)
+        got = c.st.ghost.get("router_extractor", ())
+        ok = len(got) == 1 and got[0][1] is c.result and isinstance(got[0][0], VStr) and z3.eq(got[0][0].t, c.args[gx_name].t)
+        c.note = "" if ok else f"router.get_extractor calls on this path: {[(str(a), str(v)) for a, v in got]}, returned {c.result!r}"
+        return z3.BoolVal(ok)
+
+    if "_get_file_extractor_cached" in loader.module(ARCH).functions:
+        out.append(FnContract(
+            target=f"{ARCH}::_get_file_extractor_cached", params=[(gx_name, p_str())],
+            result_maker=lambda ex, st, ctx: VUnk(fresh_name("extractor")),
+            ensures=[("is-router-get_extractor-of-the-very-name", gx_same), ("no-file-system-call", lambda c: no_fs(c))],
+            raises=[Raises("ExtractionFileFormatNotSupportedError")],
+            note="VERIFIED (round 7; was not under a C09 contract): the member's extractor is router.get_extractor of the very name, no file is touched, "
+                 "only the router's own exception escapes; callers see: some callable or that exception"))
 
     # skip rule: _should_skip_file(filename, basename)  <=>  hidden | __MACOSX/ | unsupported | nested archive
     arch = loader.module(ARCH)
@@ -368,10 +429,9 @@ def contracts(reg):
         return VBool(z3.Or(z3.PrefixOf(z3.StringVal("."), b), z3.PrefixOf(z3.StringVal("__MACOSX/"), f),
                            z3.Not(SUP(b)), z3.Or([z3.SuffixOf(z3.StringVal(e), LOWER(b)) for e in nested])))
 
-    ROUTER = "sharepoint2text/parsing/router.py"
-    (r_path,) = real_params(ROUTER, "is_supported_file", ("path",))
+    (r_path,) = real_params(ROUTER_REL, "is_supported_file", ("path",))
     out.append(FnContract(
-        target=f"{ROUTER}::is_supported_file", assumed=True, params=[(r_path, p_str())],
+        target=f"{ROUTER_REL}::is_supported_file", assumed=True, params=[(r_path, p_str())],
         returns=lambda c: VBool(SUP(c.args[r_path].t)), raises=[],
         note="call-site view: a function of the name (no file-system access). The function itself is VERIFIED against the routing specification "
              "(contracts/c09_routing.py: C09/router.py/conformance#names-are-routed-as-specified), which implies this view"))
@@ -434,7 +494,11 @@ def writer_contracts(reg):
         p_fmap = p_ext("FolderMap")        # dict: folder index -> list of file indices (membership / lookup: FsExecutor.contains / get_index)
         p_blob = Maker(lambda ex, st, name: [(z3.Int(f"{name}_len") >= 0, VSeq(z3.Int(f"{name}_len"), lambda i: VInt(z3.Function(f"{name}_byte", I_, I_)(i)), "byte", is_bytes=True))],
                        desc="bytes of any length")
-        (mk_path,) = real_params(SEVEN, "_mkdirs", ("path",))
+        mk_extra = extra_params(SEVEN, "_mkdirs", 1)
+        if mk_extra:                                           # e.g. _mkdirs(path, what="directory"): the first parameter keeps the role
+            mk_path = loader.module(SEVEN).functions["_mkdirs"].args.args[0].arg
+        else:
+            (mk_path,), mk_extra = real_params(SEVEN, "_mkdirs", ("path",)), []
         ef_self, ef_base, ef_k, ef_dec = real_params(SEVEN, "SevenZipReader._extract_files_from_folder", ("self", "base_path", "folder_idx", "decompressed"))
 
         def mk_requires(c):
@@ -445,7 +509,7 @@ def writer_contracts(reg):
             return mkdir_ok(temp, c.args[mk_path].t)
 
         out.append(FnContract(
-            target=f"{SEVEN}::_mkdirs", params=[(mk_path, p_str())], requires=mk_requires,
+            target=f"{SEVEN}::_mkdirs", params=[(mk_path, p_str())] + list(mk_extra), requires=mk_requires,
             raises=[Raises("Bad7zFile"), Raises("Exception", sub=True, when=_fs_site, label="raised by the file-system primitive itself")],
             note="requires: the path is inside the private directory (or is its parent: nothing to create); the only file-system call is os.makedirs on that very path. "
                  "VERIFIED; callers see the same contract (call-pre obligation at each call site)"))
@@ -474,8 +538,10 @@ def writer_contracts(reg):
         ea_self, ea_path, ea_src = ea
         NZ, NFO, NPK, NPP = z3.Int("c09_n_zero_length"), z3.Int("c09_n_folders"), z3.Int("c09_n_pack_sizes"), z3.Int("c09_n_pack_positions")
         ZIDX, PSZ, PPOS = z3.Function("c09_zero_length_index", I_, I_), z3.Function("c09_pack_size", I_, I_), z3.Function("c09_pack_position", I_, I_)
-        zl_attr = next((n.attr for n in __import__("ast").walk(loader.module(SEVEN).functions["SevenZipReader.extractall"])
-                        if isinstance(n, __import__("ast").Attribute) and "empty" in n.attr), "_empty_file_indices")
+        zl_attr = next((n.attr for q, f in sorted(loader.module(SEVEN).functions.items()) if q.startswith("SevenZipReader.") and not q.endswith("__init__")
+                        for n in __import__("ast").walk(f) if isinstance(n, __import__("ast").Attribute) and "empty" in n.attr and isinstance(n.ctx, __import__("ast").Load)
+                        and isinstance(n.value, __import__("ast").Name) and n.value.id == "self" and not any(q2 == f"SevenZipReader.{n.attr}" for q2 in loader.module(SEVEN).functions)),
+                       "_empty_file_indices")
         fields = {"_folder_to_files": p_fmap, "_files": p_files,
                   "_folders": Maker(lambda ex, st, name: [(NFO >= 0, VSeq(NFO, lambda i: VExt("Folder", z3.Function("c09_folder", I_, ext_sort("Folder"))(i)), "Folder"))], desc="list[Folder]"),
                   "_pack_sizes": Maker(lambda ex, st, name: [(NPK >= 0, VSeq(NPK, lambda i: VInt(PSZ(i)), "int"))], desc="list[int]"),
